@@ -1,6 +1,6 @@
 """C08 — a rejected operation leaves no trace."""
 from vlib.tok import f64, s as S, lst
-from checks.storegen import World, PLAIN, NAMES, BAD_NAMES, BLOCK_KINDS, REL_OF
+from checks.storegen import World, PLAIN, NAMES, BAD_NAMES, BLOCK_KINDS, REL_OF, with_hdump
 from checks import C04
 ID = 'C08'
 THEOREMS = ['Nix.St.createBlock_rejected', 'Nix.St.createSectionIn_rejected', 'Nix.St.createSourceIn_rejected', 'Nix.St.createInBlock_rejected', 'Nix.St.createDataArray_rejected', 'Nix.St.createDataFrame_rejected', 'Nix.St.createTag_rejected', 'Nix.St.createGroup_rejected', 'Nix.St.createSource_rejected', 'Nix.St.createProperty_rejected', 'Nix.St.setSectionLink_rejected', 'Nix.St.setArrayLink_rejected', 'Nix.St.setExtents_rejected', 'Nix.St.setNonEmpty_rejected', 'Nix.St.addReference_rejected', 'Nix.St.addSource_rejected', 'Nix.St.addMember_rejected', 'Nix.St.openGroupCreate_fresh', 'Nix.St.emptyContainer_unobservable', 'Nix.St.rejected_no_trace_partial', 'Nix.St.createInBlock_extends', 'Nix.St.blkFind_id_after_extend', 'Nix.St.blkFind_id_transport', 'Nix.St.createMultiTag_rejected', 'Nix.St.createFeature_rejected', 'Nix.St.rejected_no_trace', 'Nix.St.wf_of_schema', 'Nix.St.rejected_no_trace_schema', 'Nix.St.rejected_no_trace_reachable']
@@ -142,7 +142,7 @@ def history(rng, tier):
 def cases(tier, seed, rng):
     from vlib.runner import Case
     n = 30 if tier == 'quick' else 800
-    return [Case(history(rng, tier), 'gen:reject') for _ in range(n)]
+    return [Case(with_hdump(history(rng, tier), rng, 0.3), 'gen:reject') for _ in range(n)]
 
 def nontrivial(case, tags):
     return any(t.startswith('dump.after_reject') for t in tags)
